@@ -239,6 +239,22 @@ func c04Run(c *fw.Ctx) {
 			}
 		}
 	}
+	// (e) large replies still on their way when the connection runs into a protocol error,
+	// the end of the stream or QUIT: whatever was written must be whole frames
+	for _, L := range []int{1000, 4000, 4096, 5000, 8192, 9000, 70000} {
+		big := strings.Repeat("v", L)
+		setup := [][]byte{grammar.Encode([]string{"SET", "big", big}), grammar.Encode([]string{"RPUSH", "l", big, big})}
+		for ti, tail := range [][]byte{[]byte("!"), []byte("*x\r\n"), []byte("$abc\r\n"), nil, grammar.Encode([]string{"QUIT"}), []byte("*2\r\n$3\r\nGET\r\n$3\r\nbi"), []byte("+OK\r\n")} {
+			for _, reads := range [][]string{{"GET", "big"}, {"LRANGE", "l", "0", "-1"}, {"ECHO", big}} {
+				in := concat(grammar.Encode([]string{"PING"}), grammar.Encode(reads), grammar.Encode(reads), tail)
+				nreq := 3
+				if ti == 4 || ti == 6 {
+					nreq = 4 // the tail is a complete top-level value of its own
+				}
+				run(c04Case{Kind: "store", Setup: setup, Input: in, NReq: nreq}, fmt.Sprintf("pending-large-replies:tail%d", ti))
+			}
+		}
+	}
 }
 
 func c04Replay(raw json.RawMessage) (string, bool, error) {
@@ -265,7 +281,7 @@ func init() {
 	fw.Register(&fw.Prop{
 		ID:          "C04",
 		Level:       "exploration",
-		Rule:        "(a) every valid request shape of the grammar (<=12 shapes per command; thorough: all shapes, and pairs of positions for the first 40) with each argument position, command name included, replaced by each of 13 (thorough 23) nasty strings (CR, LF, CRLF followed by forged +OK / :1 / $-1 frames, NUL, 0xff, type characters), pairs of positions for the first shapes; 21 non-command top-level values (status, error, integer, bulk, null, empty array, null/integer/status/error/nested first element), alone and doubled inside a pipeline; (b) 29 trigger commands x 10 handler result kinds (status/error/integer/bulk/array/nested carrying each nasty string, (nil,nil), (nil,err), (msg,err), nil bulk); (c) the example store preloaded with nasty keys/values/members and read back by 24 commands. (d) two connections running scripts with replies of every type and of different lengths through the real accept loop, every schedule within deviation bound 2 (thorough 3): each connection's bytes must decode strictly into exactly its own replies (no bytes shared between connections). Oracle: the whole reply log is a concatenation of complete strict-RESP2 values, with exactly one frame per request (fewer only if the server closed the connection).",
+		Rule:        "(a) every valid request shape of the grammar (<=12 shapes per command; thorough: all shapes, and pairs of positions for the first 40) with each argument position, command name included, replaced by each of 13 (thorough 23) nasty strings (CR, LF, CRLF followed by forged +OK / :1 / $-1 frames, NUL, 0xff, type characters), pairs of positions for the first shapes; 21 non-command top-level values (status, error, integer, bulk, null, empty array, null/integer/status/error/nested first element), alone and doubled inside a pipeline; (b) 29 trigger commands x 10 handler result kinds (status/error/integer/bulk/array/nested carrying each nasty string, (nil,nil), (nil,err), (msg,err), nil bulk); (c) the example store preloaded with nasty keys/values/members and read back by 24 commands. (e) replies of 1000..70000 bytes (GET, LRANGE, ECHO, twice) still pending when the stream continues with a protocol error, ends, ends inside a request, or carries QUIT or a non-command value. (d) two connections running scripts with replies of every type and of different lengths through the real accept loop, every schedule within deviation bound 2 (thorough 3): each connection's bytes must decode strictly into exactly its own replies (no bytes shared between connections). Oracle: the whole reply log is a concatenation of complete strict-RESP2 values, with exactly one frame per request (fewer only if the server closed the connection).",
 		Assumptions: []string{"the strict decoder in /verif/resp judges the reply stream", "panics/hangs are judged by C07/C03, not here"},
 		Run:         func(c *fw.Ctx) { c04Run(c); c04Sched(c) },
 		Replay:      c04ReplayAll,
